@@ -7,7 +7,7 @@ SPEC = hdr_spec(
     rule=GEN_RULE + "`crashsave` / `crashclean` ops: the harness records the real Write/Remove sequence of the Save/Clean, rebuilds the storage image after EVERY prefix "
          "(empty and full included), loads each in a fresh repository and reports success, tip, work and linkage from genesis; the model does the same from its own event "
          "list; enumeration of crash points is complete per history; non-trivial = at least 8 submissions",
-    props_file="C12", extra=spine_scripts(['files']),
+    props_file="C12", extra=spine_scripts(['files', 'shrink']),
     partial_note="the quantifier over crash points is discharged by complete enumeration per history (fault enumeration), the quantifier over histories by generated histories; "
                  "the full 'every prefix loads and is sound' statement is a theorem for the FIRST Save of a linear chain (C12_first_save_crash_linear: genesis-only chain before the "
                  "index write, the chain being saved after it). The LOAD half is a theorem for EVERY storage image (C12_load_any_image_sound: any history, any side branches, any "
